@@ -23,6 +23,12 @@ func (li *Language) Match(input MatchInput) (bool, error) {
 		return false, fmt.Errorf("%w: %s", ErrSyntaxError, strings.Join(p.Errors(), "\n"))
 	}
 
+	// the checks that do not depend on the item come first: whether an expression is refused
+	// must not depend on what the item holds (or on whether an operand happens to be missing)
+	if result := language.ValidateCondition(conditional); result != nil && result.Type() == language.ObjectTypeError {
+		return false, fmt.Errorf("%w: %s", ErrSyntaxError, result.Inspect())
+	}
+
 	env := language.NewEnvironment()
 
 	aliases := map[string]string{}
